@@ -540,10 +540,11 @@ def exec_object_history(case):
 
 @st.composite
 def strat_object_history(draw, tier):
-    mode = draw(st.sampled_from(MODES))
+    # (colour images have the most object state: a PIL side and an array side that must stay in step)
+    mode = draw(st.sampled_from(list(MODES) + ["RGB", "RGB", "RGBA"]))
     dests = ["maskable", "maskable"]
     if mode == "RGB":
-        dests += ["rgb-array", "png-rgb", "png-rgba"]
+        dests += ["rgb-array", "rgb-array", "png-rgb", "png-rgba"]
     if mode == "RGBA":
         dests += ["png-rgba"]
     ops = []
@@ -553,7 +554,7 @@ def strat_object_history(draw, tier):
         if k in ("update", "fill"):
             op.update(salt=draw(st.integers(0, 30)), holes=draw(hole_lists(2)), rect=[draw(st.integers(0, 31)), draw(st.integers(0, 31)), draw(st.integers(1, 32)), draw(st.integers(1, 32))])
         if k == "save":
-            op["format"] = draw(st.sampled_from(["png", "npy", "fits"]))
+            op["format"] = draw(st.sampled_from(["png", "png", "npy", "fits"] if mode in ("RGB", "RGBA") else ["png", "npy", "fits"]))
         ops.append(op)
     return {"mode": mode, "dest": draw(st.sampled_from(dests)), "ops": ops}
 
